@@ -37,11 +37,15 @@ def main():
     out = {"dir": src}
     try:
         sh("git -C /repo worktree add --detach %s HEAD" % wt)
-        a = sh("git -C %s apply --3way %s" % (wt, os.path.join(src, "patch.diff")))
-        if a.returncode != 0 or "<<<<<<<" in sh("git -C %s diff" % wt).stdout:
-            sh("git -C %s reset -q --hard; git -C %s clean -fdq" % (wt, wt))
-            a = sh("git -C %s apply %s" % (wt, os.path.join(src, "patch.diff")))
         base = os.environ.get("REFACTOR_BASE")
+        a = sh("git -C %s apply %s" % (wt, os.path.join(src, "patch.diff")))
+        if a.returncode != 0 and not base:
+            # (a three-way merge that happens to apply can still be wrong - a moved line that uses a name the repair
+            # introduced elsewhere: it is only tried when no earlier commit to evaluate at is given)
+            a = sh("git -C %s apply --3way %s" % (wt, os.path.join(src, "patch.diff")))
+            if a.returncode != 0 or "<<<<<<<" in sh("git -C %s diff" % wt).stdout:
+                sh("git -C %s reset -q --hard; git -C %s clean -fdq" % (wt, wt))
+                a = sh("git -C %s apply %s" % (wt, os.path.join(src, "patch.diff")))
         if a.returncode != 0 and base:
             # the refactoring was written against an earlier commit of /repo: evaluate it there
             sh("git -C /repo worktree remove --force %s" % wt)
